@@ -180,9 +180,18 @@ def run(ctx):
             'predicate': hp.parse_predicate, 'condition': hp.parse_condition, 'expression': hp.parse_expresion}
     batch = 400
     done = 0
+    first = True
     while done < n:
         inputs = make_inputs(rng, min(batch, n - done))
         done += len(inputs)
+        if first and ctx.shard == 0:
+            # human-written strings of the repository's tests and documentation, accepted or not, at every level
+            from .. import corpus
+            for origin_, text_ in corpus.candidates():
+                for lv in LEVELS:
+                    inputs.append((lv, text_, len(text_.split()), 'corpus', 'corpus'))
+            rng.shuffle(inputs)
+        first = False
         # three long-lived parser objects per level, three orders (the third with repeats)
         parsers = {lv: [hplapi.fresh_parser(lv) for _ in range(3)] for lv in LEVELS}
         results = [dict(), dict(), dict()]
